@@ -92,9 +92,33 @@ def names(s):
     return out
 
 
-def evaluate(s, env):
-    """env: name (with ':' for flows) -> float"""
+def evaluate(s, env, probe=True):
+    """env: name (with ':' for flows) -> float.
+
+    probe=True: the value is also computed with every model quantity and every transcendental intermediate result (exp, ln, sin,
+    cos, non-integer powers) nudged by +-1e-11 relative; if that changes a discrete decision the expression sits on a
+    discontinuity (comparison, floor) within rounding distance - numpy and libm differ in the last bit there - and Ambiguous is raised.
+    Only DISCRETE decisions are compared (never the value), so a smooth but ill-conditioned expression is not flagged."""
+    v0, d0 = _evaluate(s, env, 0.0)
+    if probe and d0:
+        for eps in (1e-11, -1e-11):
+            v1, d1 = _evaluate(s, env, eps)
+            if d1 != d0:
+                raise Ambiguous("a discrete decision (comparison, floor, zero test of a division) changes when the inputs are nudged by %g relative: %r -> %r" % (eps, d0, d1))
+    return v0
+
+
+def _evaluate(s, env, eps):
+    """returns (value, list of the discrete decisions taken on the way: comparison outcomes, floor values, zero tests of divisions)"""
     tree = parse(s)
+    count = [0]
+    decisions = []
+
+    def nudge(x):
+        if eps == 0.0 or not math.isfinite(x):
+            return x
+        count[0] += 1
+        return x * (1.0 + (eps if count[0] % 2 else -eps))
 
     def ev(n):
         if isinstance(n, ast.Expression):
@@ -109,7 +133,7 @@ def evaluate(s, env):
             key = n.id.replace("___", ":")
             if key not in env:
                 raise Unsupported("unknown name %s" % key)
-            return float(env[key])
+            return float(env[key]) if key in ("t", "dt") else nudge(float(env[key]))
         if isinstance(n, ast.UnaryOp):
             if isinstance(n.op, ast.USub):
                 return -ev(n.operand)
@@ -119,24 +143,26 @@ def evaluate(s, env):
         if isinstance(n, ast.BinOp):
             a, b = ev(n.left), ev(n.right)
             if isinstance(n.op, ast.Pow):
-                return _pow(a, b)
+                return _pow(a, b) if float(b).is_integer() else nudge(_pow(a, b))
             if type(n.op) in BIN:
+                if isinstance(n.op, ast.Div):
+                    decisions.append((a == 0, b == 0))
                 return BIN[type(n.op)](a, b)
             raise Unsupported("binary op %s" % type(n.op).__name__)
         if isinstance(n, ast.Compare):
             if len(n.ops) != 1:
                 raise Unsupported("chained comparison")
             a, b = ev(n.left), ev(n.comparators[0])
-            if a != b and math.isfinite(a) and math.isfinite(b) and abs(a - b) <= 1e-9 * max(1.0, abs(a), abs(b)):
-                raise Ambiguous("comparison of %r and %r" % (a, b))
+            decisions.append(bool(CMP[type(n.ops[0])](a, b)))
             return 1.0 if CMP[type(n.ops[0])](a, b) else 0.0
         if isinstance(n, ast.Call):
             if not isinstance(n.func, ast.Name) or n.func.id not in FUNCS or n.keywords:
                 raise Unsupported("call")
             args = [ev(a) for a in n.args]
-            if n.func.id == "floor" and math.isfinite(args[0]) and args[0] != round(args[0]) and abs(args[0] - round(args[0])) <= 1e-9 * max(1.0, abs(args[0])):
-                raise Ambiguous("floor of %r" % args[0])
-            return float(FUNCS[n.func.id](*args))
+            r = float(FUNCS[n.func.id](*args))
+            if n.func.id == "floor":
+                decisions.append(r)
+            return nudge(r) if n.func.id in ("exp", "ln", "sin", "cos") else r
         raise Unsupported(type(n).__name__)
 
-    return ev(tree)
+    return ev(tree), decisions
